@@ -86,18 +86,22 @@ def rule_r1(facts, rep, rid="C18-R1"):
     else:
         rep.ok(rid, key, "contains-guard < insert < recursive calls < remove, no exit in between", f.loc)
     # every recursive call passes the same visited set
+    # position of the visited-set parameter (by its type, so that reordering the parameters does not matter)
+    vis_idx = next((i_ for i_, p_ in enumerate(f.params) if "HashSet" in (p_.get("ty") or "") and "&mut" in (p_.get("ty") or "")), 2)
     for i, call in enumerate(x for x in fb.calls_in(f.body) if fb.callee(x) == f.def_):
-        pv = c.vprov(call["args"][2]) if len(call["args"]) > 2 else set()
+        args_ = ([call.get("recv")] if call.get("k") == "mcall" else []) + list(call.get("args", []))
+        pv = c.vprov(args_[vis_idx]) if len(args_) > vis_idx else set()
         k2 = "%s|recursive-call-shares-visited-set|%d" % (f.def_, i)
         if ("param", vis) in pv and not q.has_call(pv, "HashSet::new") and not q.has_call(pv, "HashSet::clone"):
             rep.ok(rid, k2, "", loc(f, call))
         else:
-            rep.violation(rid, k2, "recursive call passes `%s` instead of the caller's visited set" % fb.show(call["args"][2])[:60], loc(f, call))
+            rep.violation(rid, k2, "recursive call passes `%s` instead of the caller's visited set" % (fb.show(args_[vis_idx])[:60] if len(args_) > vis_idx else "?"), loc(f, call))
     # the root call starts from an empty set
     g = facts.fn("liwe::graph::path::graph_to_paths")
     cg_ = ctx(g)
     for call in [x for x in fb.calls_in(g.body) if fb.callee(x) == f.def_]:
-        pv = cg_.vprov(call["args"][2])
+        args_ = ([call.get("recv")] if call.get("k") == "mcall" else []) + list(call.get("args", []))
+        pv = cg_.vprov(args_[vis_idx]) if len(args_) > vis_idx else set()
         if q.has_call(pv, "HashSet::new"):
             rep.ok(rid, g.def_ + "|fresh-visited-set-per-root", "", loc(g, call))
         else:
@@ -245,7 +249,15 @@ def rule_r4(facts, rep, rid="C18-R4"):
                 rep.violation(rid, f.def_ + "|empty-query-orders-by-rank-desc", "for an empty query the primary comparison is not `b.node_rank.cmp(&a.node_rank)` (most-referenced first): %s" % (fb.show(ce) if ce else "none"), loc(f, iff))
             else:
                 rep.ok(rid, f.def_ + "|empty-query-orders-by-rank-desc", fb.show(ce), loc(f, ce))
-            if co is None or not (_closure_param_index(c, co["recv"]) == {1} and _closure_param_index(c, co["args"][0]) == {0} and _direct_pos(c, co["recv"]).endswith("tuple.1")):
+            def _is_score(e_):
+                # the fuzzy score: second component of the (path, score) pair, or - when the pair was given a name - its i64 field
+                if _direct_pos(c, e_).endswith("tuple.1"):
+                    return True
+                b_ = e_
+                while b_ is not None and b_.get("k") in ("addrof", "unary"):
+                    b_ = b_.get("e")
+                return b_ is not None and b_.get("k") == "field" and str(b_.get("ty") or "").replace("&", "") == "i64"
+            if co is None or not (_closure_param_index(c, co["recv"]) == {1} and _closure_param_index(c, co["args"][0]) == {0} and _is_score(co["recv"])):
                 rep.violation(rid, f.def_ + "|query-orders-by-score-desc", "for a non-empty query the primary comparison is not `score_b.cmp(&score_a)`: %s" % (fb.show(co) if co else "none"), loc(f, iff))
             else:
                 rep.ok(rid, f.def_ + "|query-orders-by-score-desc", fb.show(co), loc(f, co))
@@ -352,3 +364,7 @@ def run(facts, rep, tier):
         ("Database::global_search", "take(100)"): "documented limit of 100 entries (C18-R4 checks it comes after the sort)",
     }, "headings / paths")
     rep.floor("C18-R7", "dropping adapters audited in the symbol path", n, 8)
+    rep.rule("C18-R8", "= C15-R3: the keys block references are filed under are normalised with the reader's path algebra (`../x`, `./x`), otherwise included notes are listed as roots "
+             "and their chains are missing.")
+    from . import c15 as _c15
+    _c15.rule_r3(facts, rep, "C18-R8")
